@@ -135,6 +135,34 @@ fn pad(g: &mut Rng, s: &str) -> String {
     format!("{}{}{}", l, s, r)
 }
 
+const LONG_LENS: [usize; 15] = [30, 31, 32, 33, 63, 64, 65, 127, 128, 129, 255, 256, 257, 1000, 5000];
+
+/// `form` followed by trailing detail the lenient parser ignores (`INFO(4)` style), exactly
+/// `total` bytes long. The tail starts with a non-letter ASCII character; with `multibyte` it
+/// contains non-ASCII characters. No control characters anywhere.
+fn long_form(form: &str, total: usize, multibyte: bool, variant: usize) -> String {
+    let (open, chunks): (&str, &[&str]) = match (variant % 3, multibyte) {
+        (0, false) => ("(", &["upstream latency 1234ms", "; retry 3 of 5", "; peer 10.0.0.7:443"]),
+        (1, false) => (": ", &["disk almost full on /dev/sda1", " - 97% used", ", inode table ok"]),
+        (_, false) => ("[", &["code=E1042; ", "detail=connection reset by peer; ", "Info=none; "]),
+        (0, true) => ("(", &["latence élevée 1234ms", "; 再試行 3/5", "; höst 10.0.0.7 😀"]),
+        (1, true) => (": ", &["disque presque plein sur /dev/sda1 — 97 %", " · ディスク", " ≈ ok"]),
+        (_, true) => ("[", &["код=E1042; ", "détail=connexion réinitialisée; ", "情報=なし; "]),
+    };
+    let mut s = String::with_capacity(total);
+    s.push_str(form);
+    s.push_str(open);
+    let mut i = 0;
+    while s.len() + chunks[i % chunks.len()].len() <= total {
+        s.push_str(chunks[i % chunks.len()]);
+        i += 1;
+    }
+    while s.len() < total {
+        s.push('.');
+    }
+    s
+}
+
 /// A foreign severity type: only its Display is known to emit.
 struct Sev(String);
 
@@ -152,6 +180,7 @@ fn tl_ctxt() -> ThreadLocalCtxt {
 impl Lvl {
     fn class(&self) -> &'static str {
         match self {
+            Lvl::Carried(_, t, _) if t.len() >= 30 => "long-rendering",
             Lvl::Carried(c, _, _) => match c {
                 Carrier::Padded | Carrier::PaddedOwned => "padded-text",
                 Carrier::FromDisplay | Carrier::CaptureDisplay => "foreign-display",
@@ -271,6 +300,15 @@ fn gen_junk(g: &mut Rng) -> String {
 fn gen_carried(g: &mut Rng) -> Lvl {
     let c = *g.pick(&CARRIERS);
     let (s, l) = gen_text_level(g);
+    // long renderings: the same form with trailing detail, around and beyond small-buffer sizes
+    if g.chance(1, 4) {
+        let total = match g.below(20) {
+            0 => 5000,
+            1..=2 => 1000,
+            _ => LONG_LENS[g.usize(13)],
+        };
+        return Lvl::Carried(c, long_form(&s, total, g.bool(), g.usize(3)), l);
+    }
     match c {
         Carrier::Padded | Carrier::PaddedOwned => Lvl::Carried(c, pad(g, &s), l),
         // padding is trimmed whatever the carrier
@@ -741,6 +779,77 @@ fn padded_and_carried(r: &mut Report, s: &str, l: usize) {
     }
 }
 
+/// Long renderings: a documented form followed by ignorable trailing detail, at every length in
+/// LONG_LENS, ASCII and multi-byte, through every parser entry point and every carrier.
+fn long_renderings(r: &mut Report) {
+    use std::str::FromStr;
+    let mut variant = 0usize;
+    for (w, l) in WORDS {
+        let canon = lname(l).len().min(w.len());
+        for n in [1, canon, w.len()] {
+            for case_kind in 0..3 {
+                let form: String = match case_kind {
+                    0 => w[..n].to_string(),
+                    1 => w[..n].to_ascii_lowercase(),
+                    _ => w[..n].chars().enumerate().map(|(i, c)| if i == 0 { c } else { c.to_ascii_lowercase() }).collect(),
+                };
+                for total in LONG_LENS {
+                    for multibyte in [false, true] {
+                        variant += 1;
+                        let text = long_form(&form, total, multibyte, variant);
+                        r.eval();
+                        r.observe("level-text:long-renderings", 1);
+                        let kind = if multibyte { "multibyte" } else { "ascii" };
+                        let case = |what: &str| json!({"section": "long", "form": form, "bytes": total, "multibyte": multibyte, "variant": variant, "what": what});
+                        let want = Some(LEVELS[l]);
+                        match catch(|| (Level::from_str(&text).ok(), Level::try_from_str(&text).ok(), Value::from(text.as_str()).cast::<Level>(), Value::from(&text).cast::<Level>())) {
+                            Err(m) => r.violation("C17:panic:long-rendering:parse", &format!("parsing a {}-byte rendering of {:?} panicked: {}", total, form, m), case("parse")),
+                            Ok((a, b, c, d)) => {
+                                for (entry, v) in [("from_str", a), ("try_from_str", b), ("value-cast", c), ("owned-string-cast", d)] {
+                                    if v != want {
+                                        r.violation(
+                                            &format!("C17:long-rendering:{}:{}:{}-bytes", entry, kind, total),
+                                            &format!("{:?} + {} bytes of trailing detail reads as {:?} through {}, the short form is {}", form, total - form.len(), v, entry, lname(l)),
+                                            case(entry),
+                                        );
+                                    }
+                                }
+                            }
+                        }
+                        for c in CARRIERS {
+                            if matches!(c, Carrier::TypedOwned | Carrier::TypedShared | Carrier::AmbientTyped) {
+                                continue;
+                            }
+                            let lvl = Lvl::Carried(c, text.clone(), l);
+                            for min in [l, l + 1] {
+                                if min > 3 {
+                                    continue;
+                                }
+                                r.observe("level-text:long-carried-forms", 1);
+                                let want = l >= min;
+                                let rule = Rule { min, unleveled: Some(if want { 0 } else { 3 }) };
+                                match eval_views(&rule.real(), "a", false, &lvl, false) {
+                                    Ok(v) => {
+                                        if let Some((view, got)) = v.iter().find(|(_, a)| *a != want) {
+                                            r.violation(
+                                                &format!("C17:long-rendering:carrier:{:?}:{}:{}-bytes", c, kind, total),
+                                                &format!("{:?} + trailing detail ({} bytes) carried as {:?} against min {}: {} answered {}, the short form gives {}", form, total, c, lname(min), view, got, want),
+                                                case(&format!("{:?}", c)),
+                                            );
+                                        }
+                                    }
+                                    Err(m) => r.violation(&format!("C17:panic:long-rendering:{:?}", c), &format!("a {}-byte rendering carried as {:?} panicked: {}", total, c, m), case(&format!("{:?}", c))),
+                                }
+                            }
+                        }
+                    }
+                }
+            }
+        }
+    }
+    r.exhaustive("54 spellings of the documented level words x 15 total lengths (30..5000 bytes) x ASCII / multi-byte trailing detail, through from_str, try_from_str, Value casts and 11 text carriers at the accepting and rejecting minimum");
+}
+
 /// Every documented textual form must denote the level the table says (independent of the filters).
 fn text_forms(r: &mut Report) {
     for (w, l) in WORDS {
@@ -854,6 +963,7 @@ fn main() {
             Some("map") => map_case(&mut r, seed, index),
             Some("filter") => filter_case(&mut r, seed, index),
             Some("named") => named_scenarios(&mut r),
+            Some("long") => long_renderings(&mut r),
             _ => text_forms(&mut r),
         }
         std::process::exit(r.finish());
@@ -861,6 +971,7 @@ fn main() {
 
     text_forms(&mut r);
     named_scenarios(&mut r);
+    long_renderings(&mut r);
     let n_map = args.n(20_000, 1_600_000);
     par_cases(&mut r, &args, n_map, |i, r| map_case(r, seed, i));
     let n_filter = args.n(4_000, 200_000);
